@@ -500,6 +500,8 @@ class HistoryGen(object):
                 ad = self.alloc_dict(d, c, replaced)
             if c in d.consumers and r.random() < 0.15:
                 ad = {}
+            elif c not in d.consumers and r.random() < 0.08:
+                ad = {}     # an entry that writes nothing for a new consumer
             e = {'allocations': ad}
             self.consumer_attrs(d, c, v, e)
             if 'project_id' not in e:
@@ -590,14 +592,16 @@ class HistoryGen(object):
                 e['consumer_type'] = (cons or {}).get('type') or \
                     r.choice(self.n.ctypes)
             allocs[c] = e
-        if r.random() < 0.15:
-            # a brand-new consumer placed by the reshape
+        if r.random() < 0.2:
+            # a brand-new consumer placed by the reshape (or named with
+            # nothing to write)
             c = r.choice(self.n.consumers)
             if c not in allocs and new_pairs:
                 rp, rc = r.choice(new_pairs)
                 f = invs[rp]['inventories'][rc]
                 amt = max(f.get('min_unit', 1), f.get('step_size', 1))
-                e = {'allocations': {rp: {'resources': {rc: amt}}},
+                e = {'allocations': {rp: {'resources': {rc: amt}}}
+                     if r.random() < 0.7 else {},
                      'project_id': r.choice(self.n.projects),
                      'user_id': r.choice(self.n.users),
                      'consumer_generation': self.consumer_gen(d, c)}
